@@ -403,6 +403,26 @@ def lemma_matrix(rep, F, L):
                 okv = False
             chk(rep, L, "L-MATRIX", okv, "L-MATRIX/lookup-insert#%d" % ninsert, n["sp"], "lookup only receives (Cast|Field cmp literal), Nested or Search conjuncts", "%s %s %s" % (val, shape, sorted(lefts)))
     chk(rep, L, "L-MATRIX", inserted == {"BooleanExpression:Cast", "BooleanExpression:Field", "Nested", "Search"}, "L-MATRIX/lookup-shapes", mf.sp, "shapes held by lookup", str(sorted(inserted)))
+    # the scratch map is a fresh one for every group member: a member that is rejected half way must not leave conjuncts behind for the next row
+    lids = {q.base_var(n["args"][0]) for n in walk(mf.body) if call_is(n, "::insert") and "HashMap<" in str(peel(n["args"][0]).get("ty", "")) and call_is(peel(n["args"][2]), "Clone::clone")}
+    lids &= {q.base_var(n["args"][0]) for n in walk(mf.body) if call_is(n, "::remove") and "HashMap<" in str(peel(n["args"][0]).get("ty", ""))}
+    okscope = len(lids) == 1
+    det = "%d scratch maps" % len(lids)
+    if okscope:
+        lid = list(lids)[0]
+        let_chain = use_outer = None
+        for n, path in walk_with_path(mf.body):
+            fors = [x for x in path if x.get("k") == "For"]
+            if n.get("k") == "Block":
+                for st in n["stmts"]:
+                    if st["k"] == "Let" and strip_ref(st["pat"]).get("k") == "Bind" and strip_ref(st["pat"])["id"] == lid:
+                        let_chain = fors
+            if n.get("k") == "Var" and n.get("id") == lid and fors:
+                if use_outer is None:
+                    use_outer = fors[0]
+        okscope = let_chain is not None and use_outer is not None and any(x is use_outer for x in let_chain)
+        det = "declared inside %d loops" % (len(let_chain) if let_chain is not None else -1)
+    chk(rep, L, "L-MATRIX", okscope, "L-MATRIX/lookup-fresh-per-member", mf.sp, "the conjunct scratch map is declared inside the loop over the group's members (fresh for each member)", det)
     for idx, (loop, path) in enumerate(loops):
         counts = push_count_paths(loop["body"], "row")
         if counts == {1}:
@@ -436,18 +456,24 @@ def lemma_matrix(rep, F, L):
             right = [x for x in n["fields"] if x["name"] == "2"][0]["e"]
             rid = q.var_id(unblock(right)) if unblock(right).get("k") == "Var" else (q.var_id(peel(unblock(right))["args"][0]) if call_is(peel(unblock(right)), "Clone::clone") else None)
             okr = False
+            pair_arms = []  # enclosing arms of a match on the (left, right) pair of the comparison
+            via_entry = False
             for e in q.context(p, n):
                 if e[0] != "arm":
                     continue
                 for alt in or_pats(e[1]):
                     alt = strip_ref(alt)
-                    if alt.get("k") == "Leaf" and len(alt["sub"]) == 2:
+                    if alt.get("k") == "Leaf" and len(alt["sub"]) == 2 and peel(e[2]).get("k") == "Tuple":
                         r0 = variant_of(subpat(alt, 1))
-                        if r0 and r0[1] in ("Boolean", "Float", "Integer", "Null") and show(e[2]).endswith("right)"):
-                            okr = True
-                    if variant_of(alt) == ("Expression", "BooleanExpression") and show(e[2]) == "expression":
-                        # cell rebuilt from a lookup entry (whose right side is a literal by L-MATRIX/lookup-insert)
-                        okr = okr or strip_ref(subpat(alt, 2)).get("id") == rid
+                        pair_arms.append(bool(r0 and r0[1] in ("Boolean", "Float", "Integer", "Null")))
+                    if variant_of(alt) == ("Expression", "BooleanExpression") and strip_ref(subpat(alt, 2)).get("id") == rid:
+                        via_entry = True
+            if pair_arms:
+                # built directly from a group member: every alternative of the pair pattern must restrict the right side to a literal
+                okr = all(pair_arms)
+            else:
+                # cell rebuilt from a lookup entry (whose right side is a literal by L-MATRIX/lookup-insert)
+                okr = via_entry
             chk(rep, L, "L-MATRIX", okr, "L-MATRIX/cell-right-literal#%d" % ncell, n["sp"], "a comparison cell compares its key with a literal (no second field is looked up in the cache)", show(right))
             # the cell keeps the operand kind of the conjunct it replaces: Cast(_, kind) -> Cast(key, kind), Field(_) -> Field(key)
             left = [x for x in n["fields"] if x["name"] == "0"][0]["e"]
